@@ -168,6 +168,17 @@ chk("C03",
     "short recordings. PSD processing has no time-step policy and is not covered here.",
     "TLA+ kernel spec (Pipeline) model-checked with TLC (I => P); one implementation test per TLC case and method family", "DESIGN.md#c03")
 
+chk("C04",
+    "Orientations are modelled as Pythagorean rotations (rational cos/sin plus whole turns), samples as integers; TLC checks on every "
+    "behaviour (deployed angle x sample set x up to 3 targets) energy preservation, composability, invertibility, untouched vertical, "
+    "recovery of polarised motion and the clockwise convention, and on complex bins the rotation invariance of |NS|^2+|EW|^2 and the "
+    "180-degree periodicity; every behaviour is replayed on SeismicRecording3C and the preprocessing orientation step against the exact "
+    "samples; the HVSR-level relations (single azimuth = orient + north, a vs a+180, azimuthal = stack, RotDpp monotone/bounded, "
+    "rotation-invariant combinations) are replayed through process() on seeded noise.",
+    "Trusted: TLC; spec/Rotation.tla; degrees = atan2(s, c) + 360 k evaluated in floating point (comparison rtol 1e-9). The spectral "
+    "relations are proved on Gaussian-integer bins and only replayed (not proved) on generic float recordings.",
+    "TLA+ spec (Rotation) model-checked with TLC; every behaviour replayed on the real objects; metamorphic replays through process()", "DESIGN.md#c04")
+
 def main():
     man = dict(
         version=1,
